@@ -1190,6 +1190,7 @@ class TorProcessProtocol(protocol.ProcessProtocol):
         self._connected_listeners = []  # list of Deferred (None when we're connected)
 
         self.attempted_connect = False
+        self._stdout_tail = b''  # end of the previous stdout chunk
         self.to_delete = []
         self.kill_on_stderr = kill_on_stderr
         self.stderr = stderr
@@ -1272,8 +1273,12 @@ class TorProcessProtocol(protocol.ProcessProtocol):
         # reset and try again at the next output (see this class'
         # tor_connection_failed)
         txtorlog.msg(data)
+        # the line we're looking for may arrive split over two chunks
+        marker = b'Opening Control listener'
+        seen = self._stdout_tail + data
+        self._stdout_tail = seen[-(len(marker) - 1):]
         if not self.attempted_connect and self.connection_creator \
-                and b'Opening Control listener' in data:
+                and marker in seen:
             self.attempted_connect = True
             # hmmm, we don't "do" anything with this Deferred?
             # (should it be connected to the when_connected
